@@ -296,7 +296,10 @@ class Resolver:
         if self.plural_table is None:
             raise ModelError("NoPluralTable", "")
         key = lit_count_key(lit)
-        return self.plural_table[locale][rule]["cat"][key]
+        try:
+            return self.plural_table[locale][rule]["cat"][key]
+        except KeyError:
+            raise ModelError("NoPluralTable", "count %s not in the oracle table" % key)
 
 
 def lit_count_key(lit):
